@@ -659,6 +659,43 @@ pub fn elem_receivers() -> BTreeMap<&'static str, ElemDesc> {
         attrs_field: Some(AttrsField::With(4950)),
         ..elem("TR3", TypeParam, vec!["a"], vec![f("q", pm(4951))])
     });
+    let all = set(true, true, true, true);
+    add(ElemDesc {
+        has_ident: true,
+        from_ident: Some(5410),
+        allow_unknown: true,
+        supports: Some(Supports::Sets { structs: all.clone(), enums: all.clone() }),
+        forward: Forward::Only(vec!["doc"]),
+        attrs_field: Some(AttrsField::With(5400)),
+        data: Some(DataDesc::With(5401)),
+        ..elem(
+            "DI9",
+            DeriveInput,
+            vec!["a"],
+            vec![f("rest", r("S1")).flatten(), f("m", pm(5402)).multiple().dfn(5402), f("w", pm(5403)).with().and_then()],
+        )
+    });
+    add(ElemDesc {
+        has_ident: true,
+        forward: Forward::Only(vec!["doc"]),
+        attrs_field: Some(AttrsField::With(5500)),
+        variant_fields: Some(BodyLeaf::Recv("FR1")),
+        container_default: Some(ContainerDefault::Trait(5520)),
+        container_post: Some((Post::Map, 5510)),
+        ..elem("VR5", Variant, vec!["a"], vec![f("p", pm(5501)), f("m", pm(5502)).multiple()])
+    });
+    add(ElemDesc {
+        allow_unknown: true,
+        container_default: Some(ContainerDefault::Trait(5620)),
+        container_post: Some((Post::AndThen, 5610)),
+        ..elem("AT3", Attributes, vec!["a"], vec![f("p", pm(5601)), f("mw", pm(5602)).multiple().with(), f("t", pm(5603)).dfn(5603).and_then()])
+    });
+    add(ElemDesc {
+        has_ident: true,
+        container_default: Some(ContainerDefault::Trait(5720)),
+        container_post: Some((Post::Map, 5710)),
+        ..elem("FR6", Field, vec!["a"], vec![f("p", pm(5701)), f("t", pm(5702)).dfn(5702).and_then(), f("sk", pm(5703)).skip()])
+    });
     add(elem(
         "AT1",
         Attributes,
